@@ -240,10 +240,34 @@ def run(ctx):
     for ans, (meta, asked, urls) in zip(ctx.driver.ask(reqs), metas):
         model = sorted(urls[i] for i in ans["all"]) if isinstance(ans, dict) and "all" in ans else ans
         ctx.compare("loader-fetches-model-vs-suds", meta, asked, model)
+    for ans, (meta, cached, policy) in zip(ctx.driver.ask(model_reqs), model_metas):
+        if policy != 0:
+            continue        # with cachingpolicy 1 parsed documents are not cached at all (checked above: no WSDL either)
+        model = sorted(e[0] for e in ans["cache"]) if isinstance(ans, dict) else ans
+        ctx.compare("reader-cache-after-failure-model-vs-suds", meta, cached, model)
+    del model_reqs[:], model_metas[:]
     included_needs_includer(ctx)
     relative_include_shapes(ctx)
     if metas:
         ctx.sample({"input": metas[0][0], "fetched": metas[0][1]})
+
+
+def cached_documents(directory, urls):
+    """Which of `urls` have a parsed-document entry in the cache directory."""
+    import hashlib
+    names = set(os.listdir(directory))
+    out = []
+    for u in dict.fromkeys(urls):
+        try:
+            h = hashlib.md5(u.encode(), usedforsecurity=False).hexdigest()
+        except TypeError:
+            h = hashlib.md5(u.encode()).hexdigest()
+        if any(n.startswith("suds-%s-document" % h) for n in names):
+            out.append(u)
+    return out
+
+
+model_reqs, model_metas = [], []
 
 
 def faults(ctx, ident, I, root, st, net, clean_tr, ref_fp, meta0):
@@ -275,6 +299,20 @@ def faults(ctx, ident, I, root, st, net, clean_tr, ref_fp, meta0):
                                  "client built", "an exception")
                         continue
                     failed = tr.faulted
+                    # what the cache holds after the failed load, against the reader model
+                    cached = cached_documents(d, store.asked)
+                    cached_wsdl = [f_ for f_ in os.listdir(d) if f_.endswith("-wsdl.px")]
+                    if cached_wsdl:
+                        ctx.fail("a WSDL object was cached although its construction failed", meta, cached_wsdl, [])
+                    order = []
+                    for u in store.asked:
+                        if u not in order:
+                            order.append(u)
+                    model_reqs.append({"op": "reader.openall", "cache": [], "urls": [order.index(u) for u in store.asked],
+                                       "src": [{"u": i, "o": ("unreachable" if kind == "transport-error" else "illFormed")
+                                                if u == failed else "doc", "d": i + 100} for i, u in enumerate(order)]})
+                    model_metas.append((meta, sorted(order.index(u) for u in cached) if policy == 0 else [],
+                                        policy))
                     # nothing incomplete cached: a later healthy load must behave like a clean first load
                     client2, err2, store2, tr2 = load(root, st, net, None, None, suds.cache.ObjectCache(d), policy)
                     if err2 is not None:
